@@ -200,7 +200,7 @@ CONTROLS = {
     "C18": ("c18", "J_C18", c_c18),
 }
 
-SPEC_CONTROLS = ["crc_table", "frame_rle", "neg_matcher_drop", "neg_resync_drop", "neg_rawcrc_accepts", "neg_realign_loose", "neg_capacity_drop", "neg_contract_drop", "neg_link_drop", "neg_tlf_shl", "neg_pending_keep", "neg_pending_32"]
+SPEC_CONTROLS = ["crc_table", "frame_rle", "neg_matcher_drop", "neg_resync_drop", "neg_rawcrc_accepts", "neg_realign_loose", "neg_contract_realign_loose", "neg_capacity_drop", "neg_contract_drop", "neg_link_drop", "neg_tlf_shl", "neg_pending_keep", "neg_pending_32"]
 
 
 def binding_control(vf, pid, nd_path=None):
